@@ -23,6 +23,14 @@ structure St where
   tick : Nat
 deriving Repr, DecidableEq
 
+/-- `Contour::next` (skrifa autohint/outline.rs) in coordinates relative to the contour: indices are offsets from
+`contour.first()`, so `first_ix = 0`, `last_ix = n - 1`:  `if index >= last_ix { first_ix } else { index + 1 }`.
+(translate/c02_autohint_loops.py checks the Rust body on every run.) -/
+def cnext (n i : Nat) : Nat := if i ≥ n - 1 then 0 else i + 1
+
+/-- `Contour::prev`, same coordinates: `if index <= first_ix { last_ix } else { index - 1 }` -/
+def cprev (n i : Nat) : Nat := if i ≤ 0 then n - 1 else i - 1
+
 /-- How one execution of a loop body ended: `break`, `continue` (or falling off the end), or — marker — a nested
 loop of the body did not exit within its fuel. -/
 inductive Out where
